@@ -163,3 +163,16 @@ def env_seed() -> int:
         return int(os.environ.get("VERIF_SEED", "0"))
     except ValueError:
         return 0
+
+
+def child_env(hashseed="keep") -> dict:
+    """Environment for helper subprocesses: same ampform source as this process."""
+    env = dict(os.environ)
+    src = os.environ.get("VERIF_REPO_SRC")
+    env["PYTHONPATH"] = (src + ":" if src else "") + str(ROOT / "harness")
+    env["PYTHONDONTWRITEBYTECODE"] = "1"
+    if hashseed != "keep":
+        env.pop("PYTHONHASHSEED", None)
+        if hashseed is not None:
+            env["PYTHONHASHSEED"] = str(hashseed)
+    return env
